@@ -9,6 +9,7 @@ import RtenVerif.Lemmas.Broadcast
 import RtenVerif.Lemmas.Squeeze
 import RtenVerif.Lemmas.RowMajor
 import RtenVerif.Lemmas.Clip
+import RtenVerif.Lemmas.SliceCopy
 
 /-!
 # C09 — Layout transformations match a reference array model
@@ -958,6 +959,115 @@ theorem c09_clip_dim (t t' : TState) (axis start stop : Nat)
           rw [getD_take_drop _ _ _ _ (by omega), hb, Nat.mul_comm start]
           congr 1
           omega
+
+/-! ## `slice_copy` (fixed code) against the reference -/
+
+/-- Whatever the view-slice reference accepts, the copying-slice reference (full NumPy
+semantics) accepts with the same selection. -/
+theorem copySels_of_sliceSels (items : List NArr.Item) (shape : List Nat) (sels : List Sel)
+    (h : NArr.sliceSels items shape = .ok sels) : NArr.copySels items shape = .ok sels := by
+  induction items generalizing shape sels with
+  | nil => cases shape <;> simpa [NArr.sliceSels, NArr.copySels] using h
+  | cons it its ih =>
+    cases shape with
+    | nil => cases it <;> simp [NArr.sliceSels] at h
+    | cons n ns =>
+      cases it with
+      | index i =>
+        simp only [NArr.sliceSels, NArr.copySels] at h ⊢
+        cases hp : pyIndex i n with
+        | none => simp [hp] at h
+        | some p =>
+          simp only [hp] at h ⊢
+          cases hr : NArr.sliceSels its ns with
+          | error e => simp [hr, Except.map] at h
+          | ok ss =>
+            rw [hr] at h
+            rw [ih ns ss hr]
+            exact h
+      | range a b c =>
+        simp only [NArr.sliceSels, NArr.copySels] at h ⊢
+        split at h
+        · rename_i hc
+          have hc0 : ¬ c = 0 := by
+            simp only [Bool.and_eq_true, decide_eq_true_eq] at hc
+            omega
+          rw [if_neg hc0]
+          cases hr : NArr.sliceSels its ns with
+          | error e => simp [hr, Except.map] at h
+          | ok ss =>
+            rw [hr] at h
+            rw [ih ns ss hr]
+            exact h
+        · cases h
+
+/-- **C09.T1 slice_copy, fast path** (fixed code): whenever `try_slice` accepts the items
+(in-range indices, bounds that need no clamping, steps ≥ 1), `slice_copy` returns a fresh
+contiguous tensor holding exactly NumPy's `a[items].copy()`. -/
+theorem c09_slice_copy_fast (t : TState) (items : List SliceItem) (v : View) (hwf : WF t.view)
+    (hsteps : ∀ r, SliceItem.range r ∈ items → r.step ≠ 0)
+    (hv : trySlice t.view items = .ok v) :
+    ∃ t', sliceCopy t items = .ok t' ∧
+      NArr.sliceCopy (items.map toRefItem) t.arr = .ok t'.arr := by
+  refine ⟨TState.ofArr (denote v (fun i => t.store.getD i 0)), ?_, ?_⟩
+  · unfold sliceCopy; rw [hv]
+  · rw [c09_copy_roundtrip _ (denote_data_length _ _)]
+    have hs := (c09_slice t.view items (fun i => t.store.getD i 0) hwf hsteps).1
+    rw [hv] at hs
+    simp only [Except.map] at hs
+    unfold NArr.slice at hs
+    unfold NArr.sliceCopy
+    cases hsel : NArr.sliceSels (items.map toRefItem) (denote t.view fun i => t.store.getD i 0).shape with
+    | error e => rw [hsel] at hs; simp [Except.map] at hs
+    | ok sels =>
+      rw [hsel] at hs
+      have := copySels_of_sliceSels _ _ _ hsel
+      show Except.map _ (NArr.copySels _ t.arr.shape) = _
+      have hshape : t.arr.shape = (denote t.view fun i => t.store.getD i 0).shape := rfl
+      rw [hshape, this]
+      simp only [Except.map] at hs ⊢
+      injection hs with hs
+      rw [hs]
+      rfl
+
+/-- **C09.T1 slice_copy, range items** (fixed code; any non-zero steps — negative steps,
+clamped bounds — and fewer items than axes): `slice_copy` never fails and returns a fresh
+contiguous tensor holding exactly NumPy's `a[items].copy()`, on the view path and on the
+copying path alike.  (This is the statement the pre-fix code violated, see
+`c09_slice_copy_old_full_false`.) -/
+theorem c09_slice_copy_ranges (t : TState) (items : List SliceItem)
+    (hlen : items.length ≤ t.view.dims.length) (hr : rangesOnly items) (hwf : WF t.view) :
+    ∃ t', sliceCopy t items = .ok t' ∧
+      NArr.sliceCopy (items.map toRefItem) t.arr = .ok t'.arr := by
+  have hsteps : ∀ r, SliceItem.range r ∈ items → r.step ≠ 0 := by
+    intro r hmem
+    obtain ⟨r', h1, h2⟩ := hr _ hmem
+    injection h1 with h1
+    exact h1 ▸ h2
+  cases hv : trySlice t.view items with
+  | ok v => exact c09_slice_copy_fast t items v hwf hsteps hv
+  | error e =>
+    obtain ⟨h1, h2, h3, h4⟩ := copy_path_spec t.view.dims items hlen hr
+    obtain ⟨h5, h6⟩ := lists_src t.view.dims items hlen hr
+    have hsh : t.arr.shape = sizes t.view.dims := rfl
+    have hg : NArr.gather ((rlists t.view.dims items).map Sel.take) t.arr =
+        NArr.gather (rsels t.view.dims items) t.arr := by
+      unfold NArr.gather
+      rw [hsh, h5]
+      apply NArr.ofFn_congr
+      intro idx hidx
+      rw [h6 idx hidx]
+    refine ⟨TState.ofArr (NArr.gather (rsels t.view.dims items) t.arr), ?_, ?_⟩
+    · unfold sliceCopy
+      rw [hv]
+      simp only [h1, h2, bind, Except.bind]
+      rw [if_neg (by rw [h4]; simp)]
+      simp only [pure, Except.pure, hg]
+      rfl
+    · rw [c09_copy_roundtrip _ (by simp [NArr.gather, NArr.ofFn, idxs_length])]
+      unfold NArr.sliceCopy
+      rw [hsh, h3]
+      rfl
 
 /-! ## T2: chains of operations compose -/
 
